@@ -4,6 +4,9 @@ CONSTANTS
   MaxLen = 2
   Alphabet3 = {"a","sp","sq","dq","us","hash","semi","nl","data_"}
   MaxLen3 = 3
+  Leaders = {"a","us","hash","semi","dollar","lbr","rbr","dot","data_","loop_","save_","global_","stop_"}
+  Features = {"sp","tab","sq","dq"}
+  ShapesF = {"s1","s2a","s2b","l1a","l1b","l2a","l2b","l2c","l2d","mlc","l2m","s2m"}
   FileShapes = {"solo","sand"}
   Shapes = {"s1","s2a","s2b","l1a","l1b","l2a","l2b","l2c","l2d","mlc","l2m","s2m"}
   NameAlphabet = {"a","sq","dq","us","hash","semi","dollar","lbr","qm","data_","loop_","save_"}
